@@ -2088,7 +2088,9 @@ class CollocatedIntegratedOptimizationProblem(OptimizationProblem, metaclass=ABC
                                 -np.inf,
                                 -np.inf,
                                 interpolation_method,
-                            ).ravel()
+                            )
+                            # Vector variables are laid out component by component
+                            lower_bound = lower_bound.transpose().ravel()
                         elif isinstance(bound[0], np.ndarray):
                             lower_bound = (
                                 np.broadcast_to(bound[0], (n_times, variable_size))
@@ -2108,7 +2110,9 @@ class CollocatedIntegratedOptimizationProblem(OptimizationProblem, metaclass=ABC
                                 +np.inf,
                                 +np.inf,
                                 interpolation_method,
-                            ).ravel()
+                            )
+                            # Vector variables are laid out component by component
+                            upper_bound = upper_bound.transpose().ravel()
                         elif isinstance(bound[1], np.ndarray):
                             upper_bound = (
                                 np.broadcast_to(bound[1], (n_times, variable_size))
